@@ -265,6 +265,22 @@ class Inliner:
             expanded = self._expand(call, sink, caller_names, level)
             if expanded is not None:
                 return expanded
+            # `acc.append(_helper(...))`: the helper call is the only non-simple argument of a simple call, so
+            # evaluating it first does not change the order of anything observable
+            outer = call
+            inner = [a for a in outer.args if isinstance(a, ast.Call) and self._callee(a) is not None]
+            rest = [a for a in outer.args if a not in inner] + [k.value for k in outer.keywords]
+            if len(inner) == 1 and all(_simple(a) for a in rest) and _simple(outer.func):
+                position = outer.args.index(inner[0])
+                outer_sink = sink
+
+                def nested_sink(value, origin):
+                    new_call = clone(outer)
+                    new_call.args[position] = value if value is not None else ast.Constant(value=None)
+                    return outer_sink(new_call, origin)
+                expanded = self._expand(inner[0], nested_sink, caller_names, level)
+                if expanded is not None:
+                    return expanded
         # recurse into compound statements
         for field in ("body", "orelse", "finalbody"):
             block = getattr(stmt, field, None)
